@@ -76,10 +76,15 @@ Theorem C01_early_exit :
 Proof. intros K V o j t. exact (ProofsQuery.trav_stop_prefix o j t). Qed.
 
 (** The comparators the harness uses are instances of the hypothesis (non-vacuity of
-    [TotalOrder]): ascending, reverse, difference-valued, and a non-antisymmetric preorder. *)
+    [TotalOrder]): ascending, reverse, three difference-valued ones (a-b, b-a, 3*(a-b): results of magnitude other
+    than 1, only their sign may be used), and a non-antisymmetric preorder. *)
 Theorem C01_comparators :
-  TotalOrder cmp_asc /\ TotalOrder cmp_desc /\ TotalOrder cmp_diff /\ TotalOrder cmp_half.
-Proof. exact (conj cmp_asc_total (conj cmp_desc_total (conj cmp_diff_total cmp_half_total))). Qed.
+  TotalOrder cmp_asc /\ TotalOrder cmp_desc /\ TotalOrder cmp_diff /\ TotalOrder cmp_rdiff /\
+  TotalOrder cmp_diff3 /\ TotalOrder cmp_half.
+Proof.
+  exact (conj cmp_asc_total (conj cmp_desc_total (conj cmp_diff_total (conj cmp_rdiff_total
+          (conj cmp_diff3_total cmp_half_total))))).
+Qed.
 
 (** Non-vacuity: a 7-key history with a double rotation (AVL), colour flips (red-black), a
     successor-replacing delete, absent keys, on the three implementations and two comparators. *)
